@@ -240,6 +240,8 @@ def run_c04():
     ctx = Ctx('C04')
     emd = core.import_emd()
     stop_rules_leg(ctx, emd)
+    from .padloop import padloop_leg
+    padloop_leg(ctx, 'C04')
     K = ctx.pick(5, 6)
     consts = {'Methods': '{"sd", "rilling", "fixed"}', 'MaxItersSet': core.tla_value(set(range(1, K + 1))),
               'Steps': '{12, 6, 4}', 'EnergySet': '{TRUE, FALSE}', 'Dev': '{}'}
